@@ -1,4 +1,840 @@
+//! C17 — recursion layers and aggregations chain, with or without cached preparation.
+//!
+//! Explicit-state BFS (E5) over call sequences of the REAL unified recursion API
+//! (`/repo/recursion/src/recursion.rs`, FRI backend), KoalaBear / D=4 / Poseidon2-W16 glue as
+//! in `recursion/examples/common/mod.rs`, test-grade FRI parameters.
+//!
+//! State   = (set of available proofs by shape id, content of the next-layer cache slot,
+//!            content of the aggregation cache slot, current `ProveNextLayerParams`).
+//! Actions = `L(x, none|fresh|slot)`, `A(x, y, none|slot)` (ordered pairs, optionally through
+//!            the `_cross` entry point), `P(k)` (switch params).
+//! Oracle per executed call (engine::judge + `clauses` below):
+//!   * no panic; `Ok` unless a cache prepared for ANOTHER circuit/params was handed in
+//!     (then a clean `Err` is a legitimate refusal);
+//!   * the output verifies natively (`verify_all_tables::<Challenge>`, as the examples do);
+//!   * `into_recursion_input` of the output is accepted by the next layer's verifier;
+//!   * the same call with and without cache has the same verdict.
+//!
+//! ## Why states are de-duplicated by (shape ids, cache provenance, params) only
+//! The API functions are pure functions of their explicit arguments: config, backend and
+//! params are immutable values, there is no global or thread-local state in
+//! `recursion.rs`/`backend/fri.rs`, and the non-ZK prover draws no randomness. The only data
+//! that survives a call is what the caller keeps: the proofs and the two cache objects —
+//! exactly the components of the state.
+//!   * A proof influences *which circuit is built and which cache is valid* only through
+//!     its structure (kind, AIR, table metadata, degree bits, opening-proof layout); its field
+//!     values only flow into witness values. The shape id is (kind tag incl. all proof
+//!     metadata, digest of the complete `L` verification circuit built for it), so two proofs
+//!     with one shape id drive every later call through the same circuits. This is checked,
+//!     not assumed: whenever a second proof arrives for an existing shape id, its `L` circuit
+//!     digest has been compared (it is part of the id), and base proofs come in two value
+//!     instances that are required to collapse to one id.
+//!   * A cache object is a deterministic function of (circuit, params) it was built for, so
+//!     its provenance (which call filled it) identifies its content.
+//! Hence two histories reaching the same key enable the same calls with the same outcomes, and
+//! a call needs to be executed once per distinct argument tuple (inputs' shapes, cache
+//! provenance, params). `transitions` counts those executed calls — every one runs the
+//! implementation (`traces_validated_against_impl == transitions`); edges of the state graph
+//! that repeat an already executed call are counted separately (`state_graph_edges`).
+
+mod engine;
+mod glue;
+mod objs;
+
+use std::collections::{BTreeMap, BTreeSet, HashMap};
+use std::sync::Arc;
+
+use engine::*;
+use glue::*;
+use objs::{ProofObj, make_base};
+use vpcore::rayon::prelude::*;
+use vpcore::serde_json::{Value, json};
+use vpcore::{Ctx, Histo, Report, finish, machinery_error};
+
+type ShapeId = usize;
+
+struct ShapeInfo {
+    key: String,
+    /// first provenance that produced it, e.g. `L[P0](U0)`
+    label: String,
+    insts: Vec<Shared>,
+    l_counters: String,
+    level: usize,
+}
+
+#[derive(Clone, Copy, PartialEq, Eq, Hash, PartialOrd, Ord, Debug)]
+struct NlProv {
+    x: ShapeId,
+    p: usize,
+}
+#[derive(Clone, Copy, PartialEq, Eq, Hash, PartialOrd, Ord, Debug)]
+struct AgProv {
+    x: ShapeId,
+    y: ShapeId,
+    p: usize,
+}
+
+/// One call of the API, up to the values inside the proofs ("transition class").
+#[derive(Clone, PartialEq, Eq, Hash, PartialOrd, Ord, Debug)]
+enum Call {
+    L { x: ShapeId, cache: Option<NlProv>, p: usize },
+    A { x: ShapeId, y: ShapeId, slot: Option<Option<AgProv>>, p: usize, cross: bool },
+}
+
+#[derive(Clone, PartialEq, Eq, Hash, PartialOrd, Ord, Debug)]
+struct State {
+    proofs: BTreeSet<ShapeId>,
+    nl: Option<NlProv>,
+    ag: Option<AgProv>,
+    p: usize,
+}
+
+/// A proof named relative to a history: a base proof or the output of step `i`.
+#[derive(Clone, Debug, PartialEq, Eq)]
+enum Ref {
+    Base(String),
+    Step(usize),
+}
+impl Ref {
+    fn s(&self) -> String {
+        match self {
+            Ref::Base(n) => n.clone(),
+            Ref::Step(i) => format!("#{i}"),
+        }
+    }
+    fn parse(s: &str) -> Ref {
+        match s.strip_prefix('#') {
+            Some(i) => Ref::Step(i.parse().unwrap_or_else(|_| machinery_error("bad step ref"))),
+            None => Ref::Base(s.to_string()),
+        }
+    }
+}
+
+#[derive(Clone, Debug)]
+enum Act {
+    L { x: Ref, cache: &'static str },
+    A { x: Ref, y: Ref, cache: &'static str, cross: bool },
+    P { k: usize },
+}
+impl Act {
+    fn s(&self) -> String {
+        match self {
+            Act::L { x, cache } => format!("L({},{cache})", x.s()),
+            Act::A { x, y, cache, cross } => {
+                format!("A{}({},{},{cache})", if *cross { "x" } else { "" }, x.s(), y.s())
+            }
+            Act::P { k } => format!("P({k})"),
+        }
+    }
+    fn to_json(&self) -> Value {
+        match self {
+            Act::L { x, cache } => json!({"op":"L","x":x.s(),"cache":cache}),
+            Act::A { x, y, cache, cross } => json!({"op":"A","x":x.s(),"y":y.s(),"cache":cache,"cross":cross}),
+            Act::P { k } => json!({"op":"P","k":k}),
+        }
+    }
+    fn from_json(v: &Value) -> Act {
+        let st = |k: &str| v[k].as_str().unwrap_or_else(|| machinery_error("bad replay action")).to_string();
+        let cache = |s: String| -> &'static str {
+            match s.as_str() {
+                "none" => "none",
+                "fresh" => "fresh",
+                "slot" => "slot",
+                _ => machinery_error("bad cache mode in replay"),
+            }
+        };
+        match v["op"].as_str() {
+            Some("L") => Act::L { x: Ref::parse(&st("x")), cache: cache(st("cache")) },
+            Some("A") => Act::A {
+                x: Ref::parse(&st("x")),
+                y: Ref::parse(&st("y")),
+                cache: cache(st("cache")),
+                cross: v["cross"].as_bool().unwrap_or(false),
+            },
+            Some("P") => Act::P { k: v["k"].as_u64().unwrap_or(0) as usize },
+            _ => machinery_error("bad replay action"),
+        }
+    }
+}
+
+struct StateInfo {
+    hist: Vec<Act>,
+    refs: BTreeMap<ShapeId, Ref>,
+}
+
+struct Summary {
+    verdict: Verdict,
+    facts: CacheFacts,
+    out_shape: Option<ShapeId>,
+    secs: f64,
+    hist: Vec<Act>,
+    level: usize,
+}
+
+struct World {
+    env: Env,
+    shapes: Vec<ShapeInfo>,
+    by_key: HashMap<String, ShapeId>,
+    base_names: Vec<String>,
+    memo: HashMap<Call, Summary>,
+    order: Vec<Call>,
+    /// a later proof of an already known shape arrived (its L-circuit digest matched by construction)
+    shape_merges: u64,
+}
+
+impl World {
+    fn register(&mut self, obj: ProofObj, tag: String, cnt: &str, dig: u64, label: String, level: usize) -> ShapeId {
+        let key = format!("{tag}|L={dig:016x}");
+        if let Some(&id) = self.by_key.get(&key) {
+            self.shape_merges += 1;
+            if self.shapes[id].insts.len() < 2 {
+                self.shapes[id].insts.push(Arc::new(obj));
+            }
+            return id;
+        }
+        let id = self.shapes.len();
+        self.shapes.push(ShapeInfo { key: key.clone(), label, insts: vec![Arc::new(obj)], l_counters: cnt.to_string(), level });
+        self.by_key.insert(key, id);
+        id
+    }
+    /// instance used as the subject of a judged call / as the material a cache is prepared on
+    fn subject(&self, x: ShapeId) -> Shared {
+        self.shapes[x].insts.last().unwrap().clone()
+    }
+    fn material(&self, x: ShapeId) -> Shared {
+        self.shapes[x].insts[0].clone()
+    }
+    fn label(&self, x: ShapeId) -> &str {
+        &self.shapes[x].label
+    }
+    fn call_label(&self, c: &Call) -> String {
+        match c {
+            Call::L { x, cache, p } => format!(
+                "L[P{p}]({}; cache={})",
+                self.label(*x),
+                match cache {
+                    None => "none".to_string(),
+                    Some(n) => format!("prep[P{}] for L({})", n.p, self.label(n.x)),
+                }
+            ),
+            Call::A { x, y, slot, p, cross } => format!(
+                "A{}[P{p}]({}, {}; cache={})",
+                if *cross { "x" } else { "" },
+                self.label(*x),
+                self.label(*y),
+                match slot {
+                    None => "none".to_string(),
+                    Some(None) => "empty slot".to_string(),
+                    Some(Some(a)) => format!("slot filled by A[P{}]({}, {})", a.p, self.label(a.x), self.label(a.y)),
+                }
+            ),
+        }
+    }
+    fn out_label(&self, c: &Call) -> String {
+        match c {
+            Call::L { x, p, .. } => format!("L[P{p}]({})", self.label(*x)),
+            Call::A { x, y, p, .. } => format!("A[P{p}]({},{})", self.label(*x), self.label(*y)),
+        }
+    }
+}
+
+/// Executes one call on a worker thread.
+fn run_call(w: &World, c: &Call) -> Result<Outcome, String> {
+    match c {
+        Call::L { x, cache, p } => {
+            let xs = w.subject(*x);
+            let mat = cache.map(|n| (w.material(n.x), n.p));
+            exec_l(&w.env, &xs, mat.as_ref().map(|(o, q)| (&**o, *q)), *p)
+        }
+        Call::A { x, y, slot, p, cross } => {
+            // left operand: first instance, right operand: last instance — for a base shape
+            // aggregated with itself these are two distinct proofs (as the example's leaves)
+            let xs = if x == y { w.material(*x) } else { w.subject(*x) };
+            let ys = w.subject(*y);
+            let fill_objs = match slot {
+                Some(Some(a)) => Some((w.material(a.x), w.subject(a.y), a.p)),
+                _ => None,
+            };
+            let slot_arg = match slot {
+                None => None,
+                Some(None) => Some(None),
+                Some(Some(_)) => {
+                    let (l, r, q) = fill_objs.as_ref().unwrap();
+                    Some(Some(SlotFill { left: l, right: r, p: *q }))
+                }
+            };
+            exec_a(&w.env, &xs, &ys, slot_arg, *p, *cross)
+        }
+    }
+}
+
+/// Oracle clauses on one executed call. Returns (key, description) of each broken clause.
+fn clauses(w: &World, c: &Call, s: &Summary) -> Vec<(String, String)> {
+    let f = &s.facts;
+    let kind = match c {
+        Call::L { .. } => "next_layer",
+        Call::A { cross: false, .. } => "aggregation",
+        Call::A { cross: true, .. } => "aggregation_cross",
+    };
+    let empty_slot = matches!(c, Call::A { slot: Some(None), .. });
+    let cache_class = if !f.given {
+        if empty_slot { "empty_slot".to_string() } else { "no_cache".to_string() }
+    } else if f.same_circuit {
+        if f.same_params { "same_circuit_cache".to_string() } else { "same_circuit_other_params_cache".to_string() }
+    } else {
+        match c {
+            Call::L { .. } => "foreign_cache".to_string(),
+            Call::A { .. } => format!(
+                "foreign_cache:{}",
+                if f.reused {
+                    if f.fp_equal { "fingerprint_collision" } else { "reused_despite_fingerprint_mismatch" }
+                } else {
+                    "recomputed"
+                }
+            ),
+        }
+    };
+    // kind first after the class keeps the keys readable: foreign_cache:next_layer:non_verifying
+    let key = |sym: &str| -> String {
+        let mut parts: Vec<&str> = cache_class.split(':').collect();
+        parts.insert(1, kind);
+        format!("{}:{sym}", parts.join(":"))
+    };
+    let foreign = f.given && (!f.same_circuit || !f.same_params);
+    let what = |sym: &str| {
+        format!(
+            "{} -> {sym}: {} [circuit counters now {} / cache {}]; shortest history: {}",
+            w.call_label(c),
+            s.verdict.detail().chars().take(160).collect::<String>(),
+            f.fp_now,
+            if f.given { f.fp_cache.as_str() } else { "-" },
+            s.hist.iter().map(|a| a.s()).collect::<Vec<_>>().join(" ; ")
+        )
+    };
+    match &s.verdict {
+        Verdict::Good => vec![],
+        // a cache prepared for something else may be refused
+        Verdict::Err(_) if foreign => vec![],
+        Verdict::Err(_) => vec![(key("err"), what("Err"))],
+        Verdict::Panic(_) => vec![(key("panic"), what("panic"))],
+        Verdict::NonVerifying(_) => vec![(key("non_verifying"), what("Ok, but the proof does not verify"))],
+        Verdict::NotChainable(_) => vec![(key("not_chainable"), what("Ok and verifies, but is not a valid input for a further layer"))],
+    }
+}
+
+struct Alphabet {
+    bases: Vec<String>,
+    n_params: usize,
+    depth: usize,
+    cross: bool,
+}
+
+fn enabled(s: &State, info: &StateInfo, al: &Alphabet) -> Vec<Act> {
+    let mut v = vec![];
+    let r = |x: &ShapeId| info.refs[x].clone();
+    for x in &s.proofs {
+        v.push(Act::L { x: r(x), cache: "none" });
+        v.push(Act::L { x: r(x), cache: "fresh" });
+        if s.nl.is_some() {
+            v.push(Act::L { x: r(x), cache: "slot" });
+        }
+    }
+    for x in &s.proofs {
+        for y in &s.proofs {
+            v.push(Act::A { x: r(x), y: r(y), cache: "none", cross: false });
+            v.push(Act::A { x: r(x), y: r(y), cache: "slot", cross: false });
+            if al.cross {
+                v.push(Act::A { x: r(x), y: r(y), cache: "none", cross: true });
+                v.push(Act::A { x: r(x), y: r(y), cache: "slot", cross: true });
+            }
+        }
+    }
+    for k in 0..al.n_params {
+        if k != s.p {
+            v.push(Act::P { k });
+        }
+    }
+    v
+}
+
+/// Shape a `Ref` denotes in a state reached by `info.hist`.
+fn deref(info: &StateInfo, r: &Ref) -> Option<ShapeId> {
+    info.refs.iter().find(|(_, v)| *v == r).map(|(k, _)| *k)
+}
+
+fn resolve(s: &State, info: &StateInfo, a: &Act) -> Option<Call> {
+    match a {
+        Act::P { .. } => None,
+        Act::L { x, cache } => {
+            let x = deref(info, x)?;
+            let cache = match *cache {
+                "none" => None,
+                "fresh" => Some(NlProv { x, p: s.p }),
+                _ => Some(s.nl?),
+            };
+            Some(Call::L { x, cache, p: s.p })
+        }
+        Act::A { x, y, cache, cross } => {
+            let (x, y) = (deref(info, x)?, deref(info, y)?);
+            let slot = match *cache {
+                "none" => None,
+                _ => Some(s.ag),
+            };
+            Some(Call::A { x, y, slot, p: s.p, cross: *cross })
+        }
+    }
+}
+
+fn successor(s: &State, info: &StateInfo, a: &Act, call: Option<&Call>, sum: Option<&Summary>) -> (State, StateInfo) {
+    let mut ns = s.clone();
+    let mut hist = info.hist.clone();
+    let mut refs = info.refs.clone();
+    let step = hist.len();
+    hist.push(a.clone());
+    match (a, call, sum) {
+        (Act::P { k }, _, _) => ns.p = *k,
+        (_, Some(call), Some(sum)) => {
+            if let Some(o) = sum.out_shape {
+                if ns.proofs.insert(o) {
+                    refs.insert(o, Ref::Step(step));
+                }
+            }
+            match (a, call) {
+                (Act::L { cache: "fresh", .. }, Call::L { cache: Some(n), .. }) => ns.nl = Some(*n),
+                (_, Call::A { x, y, slot: Some(_), p, .. }) => {
+                    let f = &sum.facts;
+                    ns.ag = if !f.slot_filled_after {
+                        None
+                    } else if f.reused || !matches!(sum.verdict, Verdict::Good | Verdict::NonVerifying(_) | Verdict::NotChainable(_)) {
+                        s.ag
+                    } else {
+                        Some(AgProv { x: *x, y: *y, p: *p })
+                    };
+                }
+                _ => {}
+            }
+        }
+        _ => {}
+    }
+    (ns, StateInfo { hist, refs })
+}
+
 fn main() {
-    eprintln!("MACHINERY-ERROR: check c17 not built yet");
-    std::process::exit(2);
+    let ctx = Ctx::from_args("C17", "model_checking");
+    vpcore::install_quiet_panic_hook();
+    let report = Report::new();
+
+    // ---- alphabet and bounds per tier -------------------------------------------------
+    // A scenario is one BFS: a set of base proofs initially available, a params alphabet
+    // and a depth. All scenarios share the table of executed calls.
+    let sc = |bases: &[&str], n_params: usize, depth: usize, cross: bool| Alphabet {
+        bases: bases.iter().map(|s| s.to_string()).collect(),
+        n_params,
+        depth,
+        cross,
+    };
+    let mut scenarios = if ctx.quick() {
+        vec![sc(&["U0", "U1", "B0"], 3, 2, false)]
+    } else {
+        vec![
+            // everything the quick tier does, one step deeper
+            sc(&["U0", "U1", "B0"], 3, 3, false),
+            // wider alphabet (second batch shape, third params value, `_cross` entry point)
+            sc(&["U0", "U1", "B0", "B1"], 3, 2, true),
+        ]
+    };
+    if ctx.opt("depth").is_some() || ctx.opt("bases").is_some() || ctx.opt("params").is_some() || ctx.opt("cross").is_some() {
+        let mut al = scenarios.remove(0);
+        if let Some(d) = ctx.opt("depth") {
+            al.depth = d.parse().unwrap_or(al.depth);
+        }
+        if let Some(b) = ctx.opt("bases") {
+            al.bases = b.split(',').map(|s| s.to_string()).collect();
+        }
+        if let Some(n) = ctx.opt("params") {
+            al.n_params = n.parse().unwrap_or(al.n_params);
+        }
+        if let Some(c) = ctx.opt("cross") {
+            al.cross = c == "1";
+        }
+        scenarios = vec![al];
+    }
+    let replay_value = ctx.replay.as_ref().map(|p| vpcore::load_replay(p));
+    let mut all_bases: Vec<String> = vec![];
+    if let Some(rp) = &replay_value {
+        for b in rp["bases"].as_array().cloned().unwrap_or_default() {
+            all_bases.push(b.as_str().unwrap_or("").to_string());
+        }
+    } else {
+        for al in &scenarios {
+            for b in &al.bases {
+                if !all_bases.contains(b) {
+                    all_bases.push(b.clone());
+                }
+            }
+        }
+    }
+    // test-grade FRI parameters (new_testing, with blowup 2 instead of 4 to halve proving time)
+    let mut fri = TEST_FRI;
+    fri.log_blowup = 1;
+    let env = Env { cfg: make_cfg(&fri), backend: make_backend(), fri, params: params_alphabet(&fri, 3) };
+    let mut w = World {
+        env,
+        shapes: vec![],
+        by_key: HashMap::new(),
+        base_names: all_bases.clone(),
+        memo: HashMap::new(),
+        order: vec![],
+        shape_merges: 0,
+    };
+
+    // ---- base proofs: two value instances per shape, which must collapse to one shape id ---
+    // (U2 is the negative control of the collision search and takes part in the search only)
+    let mut search_names = all_bases.clone();
+    for extra in ["U2", "B1"] {
+        if !search_names.iter().any(|n| n == extra) {
+            search_names.push(extra.to_string());
+        }
+    }
+    let mut search_objs: Vec<(String, Shared)> = vec![];
+    let mut init_refs = BTreeMap::new();
+    let mut init_proofs = BTreeSet::new();
+    for name in &search_names {
+        let in_alphabet = all_bases.contains(name);
+        let mut ids = vec![];
+        for inst in 0..2 {
+            let obj = vpcore::quiet_catch(|| make_base(name, inst, &w.env.cfg, &w.env.fri))
+                .unwrap_or_else(|p| machinery_error(&format!("base {name} panicked: {p}")))
+                .unwrap_or_else(|e| machinery_error(&format!("base {name}: {e}")));
+            let (cnt, dig) = l_circuit_id(&w.env, &obj).unwrap_or_else(|e| machinery_error(&format!("base {name}: L circuit: {e}")));
+            if !in_alphabet {
+                if inst == 0 {
+                    search_objs.push((name.clone(), Arc::new(obj)));
+                }
+                continue;
+            }
+            let tag = obj.kind_tag();
+            ids.push(w.register(obj, tag, &fp_str(&cnt), dig, name.clone(), 0));
+        }
+        if in_alphabet {
+            if ids[0] != ids[1] {
+                machinery_error(&format!("the two value instances of base {name} do not share a shape id"));
+            }
+            search_objs.push((name.clone(), w.material(ids[0])));
+            init_refs.insert(ids[0], Ref::Base(name.clone()));
+            init_proofs.insert(ids[0]);
+        }
+    }
+    w.shape_merges = 0;
+
+    // ---- replay of one stored history ---------------------------------------------------
+    if let Some(rp) = replay_value {
+        let acts: Vec<Act> = rp["history"].as_array().unwrap_or_else(|| machinery_error("replay without history")).iter().map(Act::from_json).collect();
+        let mut s = State { proofs: init_proofs.clone(), nl: None, ag: None, p: 0 };
+        let mut info = StateInfo { hist: vec![], refs: init_refs.clone() };
+        for (i, a) in acts.iter().enumerate() {
+            let call = resolve(&s, &info, a);
+            if call.is_none() && !matches!(a, Act::P { .. }) {
+                machinery_error(&format!("replay step {i} {} is not enabled", a.s()));
+            }
+            let mut sum = None;
+            if let Some(c) = &call {
+                let o = run_call(&w, c).unwrap_or_else(|e| machinery_error(&e));
+                println!("step {i}: {}  =>  {} {}", w.call_label(c), o.verdict.tag(), o.verdict.detail());
+                let mut hist = info.hist.clone();
+                hist.push(a.clone());
+                let out_shape = o.output.map(|(obj, tag, cnt, dig)| {
+                    let l = w.out_label(c);
+                    w.register(obj, tag, &fp_str(&cnt), dig, l, i + 1)
+                });
+                let sm = Summary { verdict: o.verdict, facts: o.facts, out_shape, secs: o.secs, hist, level: i };
+                for (k, what) in clauses(&w, c, &sm) {
+                    report.violation(k, what, rp.clone());
+                }
+                sum = Some(sm);
+            } else {
+                println!("step {i}: {}", a.s());
+            }
+            let (ns, ni) = successor(&s, &info, a, call.as_ref(), sum.as_ref());
+            s = ns;
+            info = ni;
+        }
+        finish(
+            &ctx,
+            json!({"states": acts.len() + 1, "transitions": acts.len(), "traces_validated_against_impl": acts.len(),
+                   "samples": [acts.iter().map(|a| a.s()).collect::<Vec<_>>().join(" ; ")], "mode": "replay"}),
+            vec![],
+            &report,
+        );
+    }
+
+    // ---- search for circuits with equal size counters but different content --------------
+    // over the base family (L circuits) and all ordered pairs (aggregation circuits)
+    let mut by_counters: BTreeMap<String, BTreeMap<u64, Vec<String>>> = BTreeMap::new();
+    for (n, o) in &search_objs {
+        let (cnt, dig) = l_circuit_id(&w.env, o).unwrap_or_else(|e| machinery_error(&e));
+        by_counters.entry(format!("L:{}", fp_str(&cnt))).or_default().entry(dig).or_default().push(format!("L({n})"));
+    }
+    let pairs: Vec<(usize, usize)> = (0..search_objs.len()).flat_map(|i| (0..search_objs.len()).map(move |j| (i, j))).collect();
+    let pair_ids: Vec<_> = pairs
+        .par_iter()
+        .map(|(i, j)| (*i, *j, a_circuit_id(&w.env, &search_objs[*i].1, &search_objs[*j].1)))
+        .collect();
+    for (i, j, r) in pair_ids {
+        let (cnt, dig) = r.unwrap_or_else(|e| machinery_error(&e));
+        by_counters
+            .entry(format!("A:{}", fp_str(&cnt)))
+            .or_default()
+            .entry(dig)
+            .or_default()
+            .push(format!("A({},{})", search_objs[i].0, search_objs[j].0));
+    }
+    let mut collisions = vec![];
+    let mut searched = 0usize;
+    for (cnt, groups) in &by_counters {
+        searched += groups.values().map(|v| v.len()).sum::<usize>();
+        if groups.len() > 1 {
+            collisions.push(json!({"counters": cnt, "distinct_circuits": groups.len(),
+                "members": groups.values().map(|v| v.join("=")).collect::<Vec<_>>()}));
+        }
+    }
+
+    // ---- BFS ------------------------------------------------------------------------------
+    let histo = Histo::new();
+    let class_histo = Histo::new();
+    let mut exhaustive = true;
+    let mut edges = 0u64;
+    let mut p_edges = 0u64;
+    let mut skipped_calls = 0u64;
+    let mut states_total = 0usize;
+    let mut per_scenario = vec![];
+    let mut state_samples: Vec<String> = vec![];
+    let mut violations: Vec<(usize, usize, usize, String, String, Value)> = vec![];
+    for (sci, al) in scenarios.iter().enumerate() {
+    let mut per_level = vec![];
+    let base_ids: BTreeSet<ShapeId> = init_refs
+        .iter()
+        .filter(|(_, r)| matches!(r, Ref::Base(n) if al.bases.contains(n)))
+        .map(|(k, _)| *k)
+        .collect();
+    let init = State { proofs: base_ids.clone(), nl: None, ag: None, p: 0 };
+    let mut seen: HashMap<State, usize> = HashMap::new();
+    seen.insert(init.clone(), 0);
+    let refs0: BTreeMap<ShapeId, Ref> = init_refs.iter().filter(|(k, _)| base_ids.contains(k)).map(|(k, v)| (*k, v.clone())).collect();
+    let mut frontier: Vec<(State, StateInfo)> = vec![(init, StateInfo { hist: vec![], refs: refs0 })];
+    for level in 0..al.depth {
+        // enumerate edges of this level
+        let mut level_edges: Vec<(usize, Act, Option<Call>)> = vec![];
+        let mut new_calls: Vec<(Call, Vec<Act>)> = vec![];
+        let mut new_set: BTreeSet<Call> = BTreeSet::new();
+        for (si, (s, info)) in frontier.iter().enumerate() {
+            for a in enabled(s, info, &al) {
+                let call = resolve(s, info, &a);
+                if let Some(c) = &call {
+                    if !w.memo.contains_key(c) && new_set.insert(c.clone()) {
+                        let mut h = info.hist.clone();
+                        h.push(a.clone());
+                        new_calls.push((c.clone(), h));
+                    }
+                } else if !matches!(a, Act::P { .. }) {
+                    continue; // `slot` action with an empty next-layer slot
+                }
+                level_edges.push((si, a, call));
+            }
+        }
+        // cheap calls (base inputs) first: under a budget cut the short histories are the ones kept
+        let weight = |c: &Call| -> usize {
+            match c {
+                Call::L { x, cache, .. } => 2 * w.shapes[*x].level + cache.map(|n| w.shapes[n.x].level).unwrap_or(0),
+                Call::A { x, y, slot, .. } => {
+                    2 * (w.shapes[*x].level + w.shapes[*y].level)
+                        + slot.flatten().map(|a| 2 * (w.shapes[a.x].level + w.shapes[a.y].level) + 1).unwrap_or(0)
+                }
+            }
+        };
+        let mut order: Vec<usize> = (0..new_calls.len()).collect();
+        order.sort_by_key(|i| weight(&new_calls[*i].0));
+        let results: Vec<(usize, Option<Result<Outcome, String>>)> = order
+            .par_iter()
+            .with_max_len(1)
+            .map(|&i| {
+                if ctx.used() > 0.85 {
+                    return (i, None);
+                }
+                (i, Some(run_call(&w, &new_calls[i].0)))
+            })
+            .collect();
+        let mut by_idx: Vec<Option<Result<Outcome, String>>> = (0..new_calls.len()).map(|_| None).collect();
+        for (i, r) in results {
+            by_idx[i] = r;
+        }
+        // register outcomes sequentially, in enumeration order (deterministic labels)
+        let mut executed = 0u64;
+        for (i, r) in by_idx.into_iter().enumerate() {
+            let (call, hist) = &new_calls[i];
+            let Some(r) = r else {
+                skipped_calls += 1;
+                exhaustive = false;
+                continue;
+            };
+            let o = r.unwrap_or_else(|e| machinery_error(&format!("{}: {e}", w.call_label(call))));
+            executed += 1;
+            histo.add(o.verdict.tag());
+            let out_shape = o.output.map(|(obj, tag, cnt, dig)| {
+                let l = w.out_label(call);
+                w.register(obj, tag, &fp_str(&cnt), dig, l, level + 1)
+            });
+            let sum = Summary { verdict: o.verdict, facts: o.facts, out_shape, secs: o.secs, hist: hist.clone(), level };
+            let f = &sum.facts;
+            let cls = format!(
+                "{}:{}",
+                match call {
+                    Call::L { .. } => "L",
+                    Call::A { cross: false, .. } => "A",
+                    Call::A { cross: true, .. } => "Ax",
+                },
+                if !f.given {
+                    if matches!(call, Call::A { slot: Some(None), .. }) { "empty_slot" } else { "no_cache" }
+                } else if f.same_circuit && f.same_params {
+                    "cache_same_circuit"
+                } else if f.same_circuit {
+                    "cache_same_circuit_other_params"
+                } else if f.fp_equal {
+                    "cache_foreign_equal_counters"
+                } else {
+                    "cache_foreign_other_counters"
+                }
+            );
+            class_histo.add(&format!("{cls} -> {}", sum.verdict.tag()));
+            for (k, what) in clauses(&w, call, &sum) {
+                violations.push((level, sci, i, k, what, json!({"history": hist.iter().map(|a| a.to_json()).collect::<Vec<_>>(),
+                    "bases": al.bases, "call": w.call_label(call)})));
+            }
+            w.order.push(call.clone());
+            w.memo.insert(call.clone(), sum);
+        }
+        // successors
+        let mut next: Vec<(State, StateInfo)> = vec![];
+        for (si, a, call) in &level_edges {
+            let (s, info) = &frontier[*si];
+            let sum = call.as_ref().and_then(|c| w.memo.get(c));
+            if call.is_some() && sum.is_none() {
+                continue; // not executed (budget)
+            }
+            if call.is_some() {
+                edges += 1;
+            } else {
+                p_edges += 1;
+            }
+            let (ns, ni) = successor(s, info, a, call.as_ref(), sum);
+            if !seen.contains_key(&ns) {
+                seen.insert(ns.clone(), level + 1);
+                if state_samples.len() < 3 * (sci + 1) && level + 1 == al.depth && sum.map(|s| s.out_shape.is_some()).unwrap_or(false) && seen.len() % 41 == 0 {
+                    state_samples.push(ni.hist.iter().map(|a| a.s()).collect::<Vec<_>>().join(" ; "));
+                }
+                next.push((ns, ni));
+            }
+        }
+        per_level.push(json!({"level": level, "states_expanded": frontier.len(), "edges": level_edges.len(),
+            "calls_new": new_calls.len(), "calls_executed": executed, "new_states": next.len(), "elapsed_s": ctx.elapsed_s()}));
+        eprintln!("C17 level {level}: states {} edges {} new calls {} executed {} new states {} shapes {} t={:.1}s",
+            frontier.len(), level_edges.len(), new_calls.len(), executed, next.len(), w.shapes.len(), ctx.elapsed_s());
+        frontier = next;
+        if !exhaustive {
+            break;
+        }
+    }
+    states_total += seen.len();
+    per_scenario.push(json!({"bases": al.bases, "params": w.env.params.iter().take(al.n_params).map(|p| p.0.clone()).collect::<Vec<_>>(),
+        "depth": al.depth, "cross_entry_point": al.cross, "states": seen.len(), "levels": per_level}));
+    if !exhaustive {
+        break;
+    }
+    }
+
+    // ---- cached ≡ uncached -----------------------------------------------------------------
+    let mut compared = 0u64;
+    for c in &w.order {
+        let s = &w.memo[c];
+        let twin = match c {
+            Call::L { x, cache: Some(_), p } if s.facts.same_circuit => Some(Call::L { x: *x, cache: None, p: *p }),
+            Call::A { x, y, slot: Some(sl), p, cross } if sl.is_none() || s.facts.same_circuit => {
+                Some(Call::A { x: *x, y: *y, slot: None, p: *p, cross: *cross })
+            }
+            _ => None,
+        };
+        let Some(twin) = twin else { continue };
+        let Some(t) = w.memo.get(&twin) else { continue };
+        compared += 1;
+        if (s.verdict == Verdict::Good) != (t.verdict == Verdict::Good) {
+            let kind = if matches!(c, Call::L { .. }) { "next_layer" } else { "aggregation" };
+            violations.push((
+                s.level,
+                usize::MAX,
+                usize::MAX,
+                format!("cached_vs_uncached:{kind}:{}_vs_{}", s.verdict.tag(), t.verdict.tag()),
+                format!("{} gives {} but {} gives {}", w.call_label(c), s.verdict.tag(), w.call_label(&twin), t.verdict.tag()),
+                json!({"history": s.hist.iter().map(|a| a.to_json()).collect::<Vec<_>>(), "bases": w.base_names, "call": w.call_label(c)}),
+            ));
+        }
+    }
+    // shortest history first, so that the case kept per key is the minimal one
+    violations.sort_by(|a, b| (a.0, a.1, a.2).cmp(&(b.0, b.1, b.2)));
+    for (_, _, _, k, what, rp) in violations {
+        report.violation(k, what, rp);
+    }
+
+    // ---- evidence --------------------------------------------------------------------------
+    let transitions = w.order.len() as u64;
+    let mut samples: Vec<Value> = vec![];
+    let mut seen_tags = BTreeSet::new();
+    for c in &w.order {
+        let s = &w.memo[c];
+        let tag = format!("{}|{}|{}", matches!(c, Call::L { .. }), s.facts.given, s.verdict.tag());
+        if seen_tags.insert(tag) || (samples.len() < 14 && s.hist.len() >= 2 && s.out_shape.is_some() && fnv64(w.call_label(c).as_bytes()) % 23 == 0) {
+            samples.push(json!({
+                "history": s.hist.iter().map(|a| a.s()).collect::<Vec<_>>().join(" ; "),
+                "last_call": w.call_label(c),
+                "verdict": s.verdict.tag(),
+                "detail": s.verdict.detail().chars().take(120).collect::<String>(),
+                "cache": {"given": s.facts.given, "same_circuit": s.facts.same_circuit, "same_params": s.facts.same_params,
+                          "counters_equal": s.facts.fp_equal, "reused": s.facts.reused},
+                "output_shape": s.out_shape.map(|o| w.shapes[o].label.clone()),
+                "secs": (s.secs * 1000.0).round() / 1000.0,
+            }));
+        }
+    }
+    for h in state_samples {
+        samples.push(json!({"state_history": h}));
+    }
+    let total_secs: f64 = w.memo.values().map(|s| s.secs).sum();
+    let coverage = json!({
+        "states": states_total,
+        "transitions": transitions,
+        "traces_validated_against_impl": transitions,
+        "state_graph_edges": edges,
+        "param_switch_edges": p_edges,
+        "edge_resolution": "an edge whose call (input shape ids, cache provenance, params) was already executed is not executed again",
+        "exhaustive": exhaustive,
+        "calls_skipped_for_budget": skipped_calls,
+        "fri": format!("{:?}", w.env.fri),
+        "scenarios": per_scenario,
+        "proof_shapes": w.shapes.len(),
+        "proofs_merged_into_existing_shape": w.shape_merges,
+        "shape_samples": w.shapes.iter().take(12).map(|s| json!({"label": s.label, "level": s.level, "L_circuit_counters": s.l_counters, "key_digest": format!("{:016x}", fnv64(s.key.as_bytes()))})).collect::<Vec<_>>(),
+        "verdicts": histo.to_json(),
+        "verdicts_by_call_class": class_histo.to_json(),
+        "cached_vs_uncached_pairs_compared": compared,
+        "collision_search": {"circuits_compared": searched, "counter_groups": by_counters.len(), "collisions": collisions},
+        "cpu_s_in_calls": (total_secs * 10.0).round() / 10.0,
+        "samples": samples,
+    });
+    let assumptions = vec![
+        "KoalaBear, D=4, Poseidon2 width 16, non-ZK TwoAdicFriPcs with test-grade FRI parameters (blowup 2, 2 queries, 1+1 PoW bits, final poly len 1): the cache logic under test does not depend on them".to_string(),
+        "states are identified by (shape ids, cache provenance, params): the API is a pure function of its explicit arguments; shape id = proof metadata + digest of the complete next-layer verification circuit".to_string(),
+        "a cache object is re-created on the worker thread by replaying the real call that produced it (Rc is not Send); the prover is deterministic in this configuration".to_string(),
+        "'accepted as input by a further L' = the next verification circuit builds and its in-circuit verifier run succeeds on into_recursion_input(output); proving that circuit is the L transition of the next level (not executed for outputs of the last level)".to_string(),
+        "classification of a cache as same/foreign uses a harness replica of the private aggregation circuit builder (public backend trait calls); its counters are validated against the fingerprint the implementation stores on every fill".to_string(),
+    ];
+    finish(&ctx, coverage, assumptions, &report);
 }
